@@ -17,7 +17,9 @@
 //! C18 cases (`case <name> kind=acc max=<n|default> tmo=<ms|default>`): the header builds factory 0
 //! (`Acceptor::new`, `set_handshake_timeout`) and service 0 of both flavours; `fnew` / `fset f ms` / `fclone f` /
 //! `fsvc f` create, configure, clone factories and build further services on the same thread;
-//! `call <lib> <cli> [s]` goes through service `s`; `ready [w]` asks every service for readiness from task `w`
+//! `call <lib> <cli> [s]` goes through service `s`; the header's limit is configured on the harness MAIN thread before
+//! the case's thread exists (`set=self`: on the case's thread); `setmax n` = `max_concurrent_tls_connect(n)` once the
+//! thread's counter exists (no effect there), `probe` = the limit a freshly spawned thread gets; `ready [w]` asks every service for readiness from task `w`
 //! (0..2, distinct wakers; `r=<mask>` in the observations = which of these tasks have been woken).  The deadline the oracle holds a call to is computed from
 //! its own bookkeeping of the configuration history, never read back from the crate.
 #![allow(dropping_copy_types)] // `build_svc!` drops the original of every clone, also of the `Copy` TCP connector
@@ -1791,6 +1793,9 @@ mod acc {
         facs: Vec<FacPair>,
         svcs: Vec<SvcPair>,
         default_tmo_ms: u64,
+        /// the limit configured last, process-wide (what a thread whose counter is created NOW must get);
+        /// `max` below is what THIS thread's counter was built with and keeps
+        global_max: usize,
         max: usize,
         conns: Vec<ConnRec>,
         /// wake flags of the tasks that ask the services for readiness (`ready [w]`, distinct wakers)
@@ -1828,9 +1833,10 @@ mod acc {
 
     impl AccCase {
         /// `max = None`: leave the crate's default limit in place (must be the first acceptor case of the process)
-        pub fn new(max: Option<usize>, tmo_ms: Option<u64>, default_max: usize, default_tmo_ms: u64) -> AccCase {
+        pub fn new(max: Option<usize>, set_self: bool, tmo_ms: Option<u64>, default_max: usize, default_tmo_ms: u64) -> AccCase {
             let sh = pki::shared();
-            if let Some(m) = max {
+            if let (Some(m), true) = (max, set_self) {
+                // `set=self`: configured on this very thread, before its counter exists
                 actix_tls::accept::max_concurrent_tls_connect(m);
             }
             let mut f0 = FacPair { r: a_rustls::Acceptor::new((*sh.rustls_server).clone()), o: a_ossl::Acceptor::new(sh.openssl_server.clone()), tmo_ms: default_tmo_ms };
@@ -1845,6 +1851,7 @@ mod acc {
                 facs: vec![f0],
                 svcs: vec![s0],
                 default_tmo_ms,
+                global_max: max.unwrap_or(default_max),
                 max: max.unwrap_or(default_max),
                 conns: vec![],
                 rflags: [Flag::new(), Flag::new(), Flag::new()],
@@ -1928,6 +1935,83 @@ mod acc {
             let s = new_services(self.facs.get(f)?);
             self.svcs.push(s);
             Some(format!("ok s={}", self.svcs.len() - 1))
+        }
+
+        /// `setmax n`: `max_concurrent_tls_connect(n)` called on this thread AFTER its counter exists: no effect
+        /// here (the thread-local counter keeps the capacity it was created with), but it is the limit of
+        /// every thread whose counter is created from now on
+        fn op_setmax(&mut self, n: usize) -> Option<String> {
+            actix_tls::accept::max_concurrent_tls_connect(n);
+            self.global_max = n;
+            Some("ok".into())
+        }
+
+        /// `probe`: a freshly spawned thread (no counter yet) builds acceptor services of both flavours and
+        /// starts stalled handshakes, alternating the flavours, for as long as the services say `Ready`: the
+        /// number it gets to is the limit in force on that thread.  Then one handshake is ended: the task
+        /// that was answered `Pending` must be woken and find the services `Ready`.
+        fn op_probe(&mut self) -> Option<String> {
+            let expect = self.global_max;
+            let r = std::thread::spawn(move || {
+                let rt = tokio::runtime::Builder::new_current_thread().enable_all().start_paused(true).build().unwrap();
+                rt.block_on(async move {
+                    let sh = pki::shared();
+                    let fac = FacPair { r: a_rustls::Acceptor::new((*sh.rustls_server).clone()), o: a_ossl::Acceptor::new(sh.openssl_server.clone()), tmo_ms: 0 };
+                    let svc = new_services(&fac);
+                    let flag = Flag::new();
+                    let w = Waker::from(flag.clone());
+                    let mut futs: Vec<SFut> = vec![];
+                    let mut keep = vec![];
+                    let ready = |svc: &SvcPair| {
+                        let a = pollu(&w, |cx| Service::<Dx>::poll_ready(&svc.r, cx)).is_ready();
+                        let b = pollu(&w, |cx| Service::<Dx>::poll_ready(&svc.o, cx)).is_ready();
+                        (a, b)
+                    };
+                    let mut disagree = false;
+                    loop {
+                        let (a, b) = ready(&svc);
+                        disagree |= a != b;
+                        if !(a && b) || futs.len() >= 400 {
+                            break;
+                        }
+                        let (sa, hs) = tokio::io::duplex(1 << 16);
+                        keep.push(hs);
+                        let f: SFut = if futs.len() % 2 == 0 {
+                            let f = svc.r.call(Dx::plain(sa));
+                            Box::pin(async move { f.await.map(|s| Box::new(s) as BoxSrv).map_err(classify) })
+                        } else {
+                            let f = svc.o.call(Dx::plain(sa));
+                            Box::pin(async move { f.await.map(|s| Box::new(s) as BoxSrv).map_err(classify) })
+                        };
+                        futs.push(f);
+                    }
+                    let n = futs.len();
+                    // one handshake ends (its future is dropped): wake-up, then Ready
+                    let (mut woken, mut again) = (true, true);
+                    if n > 0 && n < 400 {
+                        flag.clear();
+                        let _ = ready(&svc);
+                        drop(futs.remove(0));
+                        woken = flag.get();
+                        let (a, b) = ready(&svc);
+                        again = a && b;
+                    }
+                    (n, disagree, woken, again)
+                })
+            })
+            .join()
+            .ok()?;
+            let (n, disagree, woken, again) = r;
+            if n != expect {
+                self.t3.push(format!("on a freshly spawned thread the acceptor services report not-ready with {n} handshakes in progress (400 = never), but the limit configured with max_concurrent_tls_connect is {expect}"));
+            }
+            if disagree {
+                self.t3.push("rustls and openssl acceptor services of a freshly spawned thread disagree on readiness".into());
+            }
+            if !woken || !again {
+                self.t3.push(format!("fresh thread at its limit of {n}: after one handshake ended the parked task was woken={woken}, poll_ready Ready={again}"));
+            }
+            Some(format!("limit={n}"))
         }
 
         fn op_call(&mut self, lib: &str, cli: &str, sv: usize) -> Option<String> {
@@ -2539,6 +2623,8 @@ mod acc {
                 ["ready", w] => canon_num(w, 2).map(|w| self.op_ready(w as usize)),
                 ["call", lib, cli] => self.op_call(lib, cli, 0),
                 ["call", lib, cli, sv] => canon_num(sv, 64).and_then(|sv| self.op_call(lib, cli, sv as usize)),
+                ["setmax", n] => canon_num(n, 300).and_then(|n| self.op_setmax(n as usize)),
+                ["probe"] => self.op_probe(),
                 ["fnew"] => self.op_fnew(),
                 ["fset", f, ms] => match (canon_num(f, 64), canon_num(ms, 20_000)) {
                     (Some(f), Some(ms)) if ms >= 1 => self.op_fset(f as usize, ms),
@@ -2576,11 +2662,17 @@ mod acc {
 
     /// one acceptor case = one fresh thread (the handshake counter is a thread-local) with its own
     /// current-thread runtime whose clock starts paused
-    pub fn run_case(max: Option<usize>, tmo: Option<u64>, ops: Vec<String>, defaults: (usize, u64)) -> (Vec<String>, Vec<String>, Vec<String>) {
+    pub fn run_case(max: Option<usize>, tmo: Option<u64>, set_self: bool, ops: Vec<String>, defaults: (usize, u64)) -> (Vec<String>, Vec<String>, Vec<String>) {
+        // The limit is process-wide state configured by start-up code: unless the case says `set=self` it is set
+        // HERE, on the harness main thread, before the thread that will host the acceptor services exists - its
+        // thread-local counter is created later, on first use, and must be built with this limit.
+        if let (Some(m), false) = (max, set_self) {
+            actix_tls::accept::max_concurrent_tls_connect(m);
+        }
         std::thread::spawn(move || {
             let rt = tokio::runtime::Builder::new_current_thread().enable_all().start_paused(true).build().unwrap();
             rt.block_on(async move {
-                let mut case = AccCase::new(max, tmo, defaults.0, defaults.1);
+                let mut case = AccCase::new(max, set_self, tmo, defaults.0, defaults.1);
                 let mut outs = vec![];
                 for line in &ops {
                     let ws: Vec<&str> = line.split_whitespace().collect();
@@ -3327,6 +3419,41 @@ fn gen_c18(a: &Args, w: &mut dyn Write) {
             }
         }
     }
+    // (H) the limit is process-wide state configured by start-up code on ANOTHER thread than the one the services
+    //     live on.  Every case of this file with `max=<n>` has its limit set on the harness main thread before the
+    //     case's thread is spawned (`set=main`, the default); here: the demo shape on its own (limit-many stalled
+    //     handshakes on the fresh thread: Pending; one ends: wake-up and Ready), the same with the limit set on
+    //     the case's own thread (`set=self`), `probe` (a further fresh thread gets the limit configured last),
+    //     and the converse order: `setmax` after the thread's counter exists changes nothing on that thread.
+    let mut hi = 0usize;
+    for lib in libs {
+        for max in 1..=3usize {
+            for set in ["", " set=main", " set=self"] {
+                hi += 1;
+                writeln!(w, "case xthread-{lib}-{max}-{hi} kind=acc max={max} tmo=400{set}").unwrap();
+                for k in 0..max {
+                    writeln!(w, "ready").unwrap();
+                    writeln!(w, "call {} {}", if k % 2 == 0 { lib } else { libs[hi % 2] }, clis[(hi + k) % 4]).unwrap();
+                    writeln!(w, "poll {k}").unwrap();
+                }
+                writeln!(w, "ready").unwrap(); // Pending at exactly `max`
+                writeln!(w, "probe").unwrap();
+                writeln!(w, "setmax {}", max + 2).unwrap(); // too late for this thread
+                writeln!(w, "ready").unwrap();
+                writeln!(w, "drop 0").unwrap(); // wake-up
+                writeln!(w, "ready").unwrap();
+                writeln!(w, "call {lib} r13").unwrap();
+                writeln!(w, "ready").unwrap(); // still `max`, not max + 2
+                writeln!(w, "probe").unwrap(); // a fresh thread: max + 2
+                writeln!(w, "setmax {}", if hi % 2 == 0 { 0 } else { 1 }).unwrap();
+                writeln!(w, "probe").unwrap();
+            }
+        }
+    }
+    for l in ["case xthread-bad kind=acc max=2 tmo=100 set=main", "setmax 301", "setmax 01", "setmax", "setmax x", "probe 1", "setmax 300", "probe",
+        "case xthread-bad2 kind=acc max=2 tmo=100 set=none", "ready", "case xthread-bad3 kind=acc max=2 set=self", "ready", "case xthread-bad4 kind=acc max=2 tmo=100 set=self x=1", "ready"] {
+        writeln!(w, "{l}").unwrap();
+    }
     // (G) several tasks ask for readiness (distinct wakers): the one that asked LAST and was answered Pending is
     //     the one a handshake's end wakes, not one that asked earlier in the same not-ready period
     let mut gi = 0usize;
@@ -3666,6 +3793,8 @@ fn gen_c18(a: &Args, w: &mut dyn Write) {
         }
     }
     // (C) the crate's defaults: 256 handshakes per thread, 3 s
+    writeln!(w, "case defaults-fresh-thread kind=acc max=default tmo=default").unwrap();
+    writeln!(w, "probe").unwrap();
     writeln!(w, "case defaults kind=acc max=default tmo=default").unwrap();
     for k in 0..256 {
         if k % 64 == 0 || k == 255 {
@@ -3700,6 +3829,8 @@ fn gen_c18(a: &Args, w: &mut dyn Write) {
             let k = rng.below(calls.max(1));
             match rng.below(24) {
                 0 if rng.chance(1, 2) => writeln!(w, "ready {}", rng.below(3)).unwrap(),
+                1 if rng.chance(1, 6) => writeln!(w, "setmax {}", rng.range(1, 4)).unwrap(),
+                1 if rng.chance(1, 8) => writeln!(w, "probe").unwrap(),
                 20 => match rng.below(3) {
                     0 if nf < 8 => {
                         writeln!(w, "fnew").unwrap();
@@ -3796,10 +3927,19 @@ struct GroupOut {
     notes: Vec<String>,
 }
 
-/// header of an acceptor case: (max, tmo); `None` inside = `default`
-fn parse_acc_header(rest: &[&str]) -> Option<(Option<usize>, Option<u64>)> {
+/// header of an acceptor case: (max, tmo, where the limit is set); `None` inside = `default`.
+/// `set=main` (default): `max_concurrent_tls_connect(max)` is called on the harness MAIN thread before the
+/// case's thread exists (start-up code configuring the workers); `set=self`: on the case's own thread, before
+/// its first service is built.
+fn parse_acc_header(rest: &[&str]) -> Option<(Option<usize>, Option<u64>, bool)> {
     let kv: std::collections::HashMap<&str, &str> = rest.iter().filter_map(|x| x.split_once('=')).collect();
-    if kv.get("kind").copied() != Some("acc") || rest.len() != 3 {
+    let set_self = match (rest.len(), kv.get("set").copied()) {
+        (3, None) => false,
+        (4, Some("main")) => false,
+        (4, Some("self")) => true,
+        _ => return None,
+    };
+    if kv.get("kind").copied() != Some("acc") {
         return None;
     }
     let max = match kv.get("max").copied()? {
@@ -3810,7 +3950,7 @@ fn parse_acc_header(rest: &[&str]) -> Option<(Option<usize>, Option<u64>)> {
         "default" => None,
         t => Some(t.parse::<u64>().ok().filter(|x| *x >= 1 && *x <= 20_000 && x.to_string() == t)?),
     };
-    Some((max, tmo))
+    Some((max, tmo, set_self))
 }
 
 fn run_conn_group(rt: &tokio::runtime::Runtime, lines: &[String]) -> GroupOut {
@@ -3983,10 +4123,10 @@ impl T3Sink {
 const DOC_DEFAULT_MAX: usize = 256;
 const DOC_DEFAULT_TMO_MS: u64 = 3000;
 
-fn run_acc_group(lines: &[String], hdr: (Option<usize>, Option<u64>)) -> GroupOut {
+fn run_acc_group(lines: &[String], hdr: (Option<usize>, Option<u64>, bool)) -> GroupOut {
     let ops: Vec<String> = lines[1..].to_vec();
     let n = ops.len();
-    let (mut outs, t3, notes) = acc::run_case(hdr.0, hdr.1, ops, (DOC_DEFAULT_MAX, DOC_DEFAULT_TMO_MS));
+    let (mut outs, t3, notes) = acc::run_case(hdr.0, hdr.1, hdr.2, ops, (DOC_DEFAULT_MAX, DOC_DEFAULT_TMO_MS));
     let mut t3: Vec<(String, String)> = t3.into_iter().map(|m| ("C18".to_string(), m)).collect();
     if outs.len() != n {
         outs = vec!["panic".to_string(); n];
@@ -4014,7 +4154,7 @@ fn run(a: &Args) {
     if start < lines.len() {
         groups.push((start, lines.len()));
     }
-    let header = |g: &(usize, usize)| -> Option<(Option<usize>, Option<u64>)> {
+    let header = |g: &(usize, usize)| -> Option<(Option<usize>, Option<u64>, bool)> {
         let ws: Vec<&str> = lines[g.0].split_whitespace().collect();
         match ws.as_slice() {
             ["case", _name, rest @ ..] => parse_acc_header(rest),
@@ -4024,8 +4164,8 @@ fn run(a: &Args) {
     let mut outs: Vec<Option<GroupOut>> = groups.iter().map(|_| None).collect();
     // acceptor cases that rely on the crate's default limit run first: the limit is process-global
     for (gi, g) in groups.iter().enumerate() {
-        if let Some((None, tmo)) = header(g) {
-            outs[gi] = Some(run_acc_group(&lines[g.0..g.1], (None, tmo)));
+        if let Some((None, tmo, set_self)) = header(g) {
+            outs[gi] = Some(run_acc_group(&lines[g.0..g.1], (None, tmo, set_self)));
         }
     }
     for (gi, g) in groups.iter().enumerate() {
